@@ -287,7 +287,7 @@ func (s *Sim) divergeClass(a, b *nodeState) string {
 		return "follower-needed-msgsnap"
 	case a.restartedSnap || b.restartedSnap:
 		return "restart-after-snapshot"
-	case a.restarts > 0 || b.restarts > 0:
+	case a.restarts > 0 || b.restarts > 0 || s.res.Faults["restart"] > 0:
 		return "after-restart"
 	case s.rconfAdd || s.rconfDel:
 		return "after-rconf"
